@@ -37,6 +37,7 @@ structure PartsOk (ps : List (MemPart ν κ)) (nextId nextOff : Nat) : Prop wher
   nodup : (ps.map (·.id)).Nodup
   idlt : ∀ p ∈ ps, p.id < nextId
   tile : tiles ps 0 nextOff
+  lens : ∀ p ∈ ps, ∀ r, p.rows = some r → p.len = rowsLen r
 
 /-- Well-formed request: a `HashMap<table, TableBuffer>` (each table once), each buffer a `HashMap<column, _>`. -/
 def ReqWF (r : Request ν κ) : Prop :=
